@@ -75,6 +75,11 @@ THEOREMS = [
     "Cotengra.C10.traverse_ordered_children_first",
     "Cotengra.C10.traverse_dfs_postorder",
     "Cotengra.C10.cfCheck_sound",
+    "Cotengra.C10.getPath_eq_ssaToLinear_getSsaPath",
+    "Cotengra.C10.ssa_path_roundtrip",
+    "Cotengra.C10.fromPath_ssaToLinear",
+    "Cotengra.C10.path_roundtrip",
+    "Cotengra.C10.path_roundtrip_traversals",
 ]
 
 
@@ -527,7 +532,7 @@ def run(ctx, drv):
         cnt, complete = exhaustive_trees(ctx, drv)
         ctx.notes["exhaustive_trees_n<=5_x_orders"] = {"cases": cnt, "complete": complete}
         ctx.exhaustive = complete
-    ncases = 1500 if ctx.tier == "quick" else 20000
+    ncases = 6000 if ctx.tier == "quick" else 60000
     for i in range(ncases):
         if ctx.time_left() < 10:
             break
